@@ -183,6 +183,14 @@ finding(
         {"cli": False, "feat": ["rich-return-annotation", "doc:none"], "runs": [["rest", False, None]], "src": "def lpt(v=-8, **kwargs) -> Literal[':', '->']:\n    return 1\n"},
     ]},
 )
+finding(
+    "P70", ["C16"], "fixed", "upsert_routes into the routes file it created earlier appends the missing routes without a separator: `response.status = 204@app.post('/log')` - invalid Python, the added operations are lost", "df768ba",
+    witnesses={"C16": [{"app": "app", "models": [{"cls": "Log", "cols": [{"default": None, "fk": False, "name": "id", "nodoc": False, "nullable": False, "typ": "int", "pk": True}, {"default": None, "fk": False, "name": "msg", "nodoc": False, "nullable": True, "typ": "str"}], "crud": "C", "crud0": "D", "doc_cols": True, "emitted": False, "multi": False, "pk": "explicit", "pk_name": "id", "tbl": "log", "tbl_kind": "titlecase"}], "prefix": ""}]},
+)
+finding(
+    "P71", ["C16"], "fixed", "openapi_bulk groups routes per path with groupby WITHOUT sorting: for a routes file in the order delete('/x/:id'), post('/x'), get('/x/:id') the DELETE operation is missing from the document", "183509b",
+    witnesses={"C16": [{"app": "app", "models": [{"cls": "Log", "cols": [{"default": None, "fk": False, "name": "id", "nodoc": False, "nullable": False, "typ": "int", "pk": True}, {"default": None, "fk": False, "name": "msg", "nodoc": False, "nullable": True, "typ": "str"}], "crud": "CRD", "crud0": "D", "doc_cols": True, "emitted": False, "multi": False, "pk": "explicit", "pk_name": "id", "tbl": "log", "tbl_kind": "titlecase"}], "prefix": ""}]},
+)
 finding("P26", ["C07"], "open", "doctrans drops comments inside a rewritten multi-line def header")
 finding("P27", ["C07"], "open", "doctrans turns a one-line `def f(a=1): return a` into invalid Python")
 finding("P28", ["C07"], "open", "doctrans does not recognise a raw docstring r\"\"\"...\"\"\": a second string is inserted")
